@@ -5,6 +5,7 @@ import (
 	"go/ast"
 	"go/token"
 	"go/types"
+	"reflect"
 	"sort"
 	"strings"
 
@@ -380,57 +381,220 @@ func R14(p *core.Prog) *core.Result {
 			r.Ok(".RECURSION-GUARD", p.Pos(rf.Pos()), root+": not recursive")
 			continue
 		}
-		// a memo store (registry set / map update) that dominates a call to an SCC member
-		guarded := ""
+		// guard functions: an in-progress test-and-set (lookup in a set -> error if present; insert) dominates
+		// every call the function makes into the cycle
+		guards := map[*ssa.Function]bool{}
 		for f := range scc {
-			for _, b := range f.Blocks {
-				for _, in := range b.Instrs {
-					c, ok := in.(ssa.CallInstruction)
-					if !ok {
+			if guardsDescent(f, scc) {
+				guards[f] = true
+			}
+		}
+		// the cycle graph without the guard functions must be acyclic
+		cyclic := ""
+		color := map[*ssa.Function]int{}
+		var visit func(f *ssa.Function, trail []string) bool
+		visit = func(f *ssa.Function, trail []string) bool {
+			color[f] = 1
+			for _, g := range sccSucc(f, rf) {
+				if !scc[g] || guards[g] {
+					continue
+				}
+				if color[g] == 1 {
+					cyclic = strings.Join(append(trail, f.Name(), g.Name()), " -> ")
+					return true
+				}
+				if color[g] == 0 && visit(g, append(trail, f.Name())) {
+					return true
+				}
+			}
+			color[f] = 2
+			return false
+		}
+		var fs []*ssa.Function
+		for f := range scc {
+			fs = append(fs, f)
+		}
+		sort.Slice(fs, func(i, j int) bool { return fs[i].Pos() < fs[j].Pos() })
+		for _, f := range fs {
+			if !guards[f] && color[f] == 0 && visit(f, nil) {
+				break
+			}
+		}
+		var names, gnames []string
+		for f := range scc {
+			names = append(names, f.Name())
+			if guards[f] {
+				gnames = append(gnames, f.Name())
+			}
+		}
+		sort.Strings(names)
+		sort.Strings(gnames)
+		if cyclic == "" {
+			r.Ok(".RECURSION-GUARD", p.Pos(rf.Pos()), fmt.Sprintf("%s: every cycle of the type compiler (%d functions) passes through an in-progress test-and-set (%s)", root, len(names), strings.Join(gnames, ",")))
+		} else {
+			r.Fail(".RECURSION-GUARD", "gotype."+root, p.Pos(rf.Pos()), fmt.Sprintf("the type compiler cycle through %s (%d functions: %s) has a cycle that never tests whether the type is already being compiled (%s; guarded functions: %s): a self-referential type (type N struct{ Next *N }) recurses until the stack overflows", root, len(names), strings.Join(names, ","), cyclic, strings.Join(gnames, ",")), "")
+		}
+	}
+	return r
+}
+
+// testAndSetAt: the instruction in f after which the type is recorded as in
+// progress, nil if f has no in-progress test-and-set. Two shapes: inline
+// (m[k] tested -> return error; m[k] = true) or a call of a helper of that
+// shape whose error result makes f return.
+func testAndSetAt(f *ssa.Function, depth int) ssa.Instruction {
+	// inline shape
+	for _, b := range f.Blocks {
+		for _, in := range b.Instrs {
+			mu, ok := in.(*ssa.MapUpdate)
+			if !ok {
+				continue
+			}
+			if cv, ok := constBool(mu.Value); !ok || !cv {
+				continue
+			}
+			// a lookup in the same map that leads to an error return
+			for _, b2 := range f.Blocks {
+				for _, in2 := range b2.Instrs {
+					lk, ok := in2.(*ssa.Lookup)
+					if !ok || addrKey(lk.X) == "" || addrKey(lk.X) != addrKey(mu.Map) {
 						continue
 					}
-					sc := c.Common().StaticCallee()
-					if sc == nil || !scc[sc] {
-						continue
-					}
-					// look for a dominating memo store in the same function
-					for _, b2 := range f.Blocks {
-						if !(b2 == b || b2.Dominates(b)) {
-							continue
-						}
-						for _, in2 := range b2.Instrs {
-							if in2 == in {
-								break
+					if refs := lk.Referrers(); refs != nil {
+						for _, rf := range *refs {
+							ifi, ok := rf.(*ssa.If)
+							if !ok {
+								continue
 							}
-							isMemo := false
-							if _, ok := in2.(*ssa.MapUpdate); ok {
-								isMemo = true
-							}
-							if c2, ok := in2.(*ssa.Call); ok {
-								if s2 := c2.Common().StaticCallee(); s2 != nil && (s2.Name() == "set" || s2.Name() == "setInline") {
-									isMemo = true
+							tb := ifi.Block().Succs[0]
+							if ret, ok := tb.Instrs[len(tb.Instrs)-1].(*ssa.Return); ok {
+								if ei := errResultIndex(f.Signature); ei >= 0 && definitelyNonNilError(ret.Results[ei]) {
+									return mu
 								}
-							}
-							if isMemo && (b2 != b || instrBefore(b, in2, in)) {
-								guarded = core.FuncKey(f)
 							}
 						}
 					}
 				}
 			}
 		}
-		var names []string
-		for f := range scc {
-			names = append(names, f.Name())
-		}
-		sort.Strings(names)
-		if guarded != "" {
-			r.Ok(".RECURSION-GUARD", p.Pos(rf.Pos()), root+": "+guarded+" records the type before descending")
-		} else {
-			r.Fail(".RECURSION-GUARD", "gotype."+root, p.Pos(rf.Pos()), fmt.Sprintf("the type compiler cycle through %s (%d functions: %s) never records a type as in progress before it descends into the type's components: a self-referential type (type N struct{ Next *N }) recurses until the stack overflows", root, len(names), strings.Join(names, ",")), "")
+	}
+	if depth > 0 {
+		return nil
+	}
+	// helper shape
+	for _, b := range f.Blocks {
+		for _, in := range b.Instrs {
+			c, ok := in.(*ssa.Call)
+			if !ok {
+				continue
+			}
+			h := c.Common().StaticCallee()
+			if h == nil || h.Blocks == nil || h.Signature.Results().Len() != 1 || !isErrorType(h.Signature.Results().At(0).Type()) {
+				continue
+			}
+			if testAndSetAt(h, depth+1) == nil {
+				continue
+			}
+			// the helper's error makes f return
+			if refs := c.Referrers(); refs != nil {
+				for _, rf := range *refs {
+					bo, ok := rf.(*ssa.BinOp)
+					if !ok || bo.Op != token.NEQ {
+						continue
+					}
+					if brefs := bo.Referrers(); brefs != nil {
+						for _, br := range *brefs {
+							if ifi, ok := br.(*ssa.If); ok {
+								tb := ifi.Block().Succs[0]
+								if _, ok := tb.Instrs[len(tb.Instrs)-1].(*ssa.Return); ok {
+									return c
+								}
+							}
+						}
+					}
+				}
+			}
 		}
 	}
-	return r
+	return nil
+}
+
+// guardsDescent: f has an in-progress test-and-set that comes before every
+// call f makes into the cycle.
+func guardsDescent(f *ssa.Function, scc map[*ssa.Function]bool) bool {
+	ts := testAndSetAt(f, 0)
+	if ts == nil {
+		return false
+	}
+	for _, b := range f.Blocks {
+		for _, in := range b.Instrs {
+			c, ok := in.(ssa.CallInstruction)
+			if !ok {
+				continue
+			}
+			sc := c.Common().StaticCallee()
+			if sc == nil || !scc[sc] {
+				continue
+			}
+			if !(ts.Block() == b && instrBefore(b, ts, in)) && !(ts.Block() != b && ts.Block().Dominates(b)) {
+				return false
+			}
+		}
+	}
+	return true
+}
+
+// byValueStructDescent: the call sits behind a test that the type it descends
+// into has Kind()==reflect.Struct. A struct type cannot contain itself by
+// value (the compiler rejects it), so a descent that only follows by-value
+// struct fields is finite.
+func byValueStructDescent(in ssa.Instruction) bool {
+	blk := in.Block()
+	for _, b := range in.Parent().Blocks {
+		ifi, ok := b.Instrs[len(b.Instrs)-1].(*ssa.If)
+		if !ok {
+			continue
+		}
+		bo, ok := ifi.Cond.(*ssa.BinOp)
+		if !ok || (bo.Op != token.NEQ && bo.Op != token.EQL) {
+			continue
+		}
+		call, ok := bo.X.(*ssa.Call)
+		if !ok || !call.Common().IsInvoke() || call.Common().Method.Name() != "Kind" {
+			continue
+		}
+		if c, ok := constIntVal(bo.Y); !ok || c != int64(reflect.Struct) {
+			continue
+		}
+		structSucc := b.Succs[0]
+		if bo.Op == token.NEQ {
+			structSucc = b.Succs[1]
+		}
+		if len(structSucc.Preds) == 1 && (structSucc == blk || structSucc.Dominates(blk)) {
+			return true
+		}
+	}
+	return false
+}
+
+func sccSucc(f *ssa.Function, root *ssa.Function) []*ssa.Function {
+	var out []*ssa.Function
+	for _, b := range f.Blocks {
+		for _, in := range b.Instrs {
+			if c, ok := in.(ssa.CallInstruction); ok {
+				if sc := c.Common().StaticCallee(); sc != nil && core.FuncPkg(sc) == core.FuncPkg(root) && sc.Blocks != nil {
+					if sc == f && byValueStructDescent(in) {
+						continue
+					}
+					out = append(out, sc)
+				}
+			}
+			if mc, ok := in.(*ssa.MakeClosure); ok {
+				out = append(out, mc.Fn.(*ssa.Function))
+			}
+		}
+	}
+	return out
 }
 
 func instrBefore(b *ssa.BasicBlock, a, c ssa.Instruction) bool {
